@@ -278,8 +278,14 @@ MUT_TOKENS = [")", "(", "]", "[", "}", "{", ",", ";", ":", "::", "=", "then", "e
 @st.composite
 def error_case(draw):
     tree = draw(A.syntax_trees(max_leaves=8))
-    return {"tree": tree, "choices": draw(st.lists(st.integers(0, 1000), min_size=8, max_size=30)),
-            "pos": draw(st.integers(0, 10_000)), "kind": draw(st.integers(0, 3)), "tok": draw(st.sampled_from(MUT_TOKENS))}
+    muts = draw(st.lists(st.tuples(st.integers(0, 10_000), st.integers(0, 4), st.sampled_from(MUT_TOKENS)), min_size=6, max_size=6))
+    return {"tree": tree, "choices": draw(st.lists(st.integers(0, 1000), min_size=8, max_size=30)), "muts": [list(m) for m in muts]}
+
+
+# a token is replaced by a *similar* token (the mistakes people make): visibility, brackets, keywords
+SIMILAR = {":": ["::", ":::", "+:", "="], "::": [":", ":::"], ":::": ["::", ":"], "+:": ["+::", ":"], "=": [":", "=="], "[": ["(", "{"], "]": [")", "}"],
+           "(": ["[", "{"], ")": ["]", "}"], "{": ["[", "("], "}": ["]", ")"], ",": [";", ""], ";": [",", ""], "for": ["if", "in"], "in": ["for", "="],
+           "if": ["for", "then"], "then": ["else", ""], "else": ["then", ""], "local": ["assert", ""], "function": ["local", ""], ".": [",", ".."], "+": ["+:", "++"]}
 
 
 def check_error(case):
@@ -290,17 +296,34 @@ def check_error(case):
     data = text.encode("utf-8")
     if not toks:
         return {}
-    i = case["pos"] % len(toks)
+    out = {"labels": []}
+    for pos, kind, tokt in case["muts"]:
+        r = check_error_one(data, toks, pos, kind, tokt)
+        if r.get("nontrivial"):
+            out["nontrivial"] = True
+            out["sample"] = r["sample"]
+        out["labels"] += r.get("labels", [])
+    return out
+
+
+def check_error_one(data, toks, pos, kind, tokt):
+    i = pos % len(toks)
     _, s, e = toks[i]
-    tok = case["tok"].encode("utf-8")
-    if case["kind"] == 0:
+    tok = tokt.encode("utf-8")
+    if kind == 0:
         mutated = data[:s] + data[e:]
-    elif case["kind"] == 1:
+    elif kind == 1:
         mutated = data[:s] + b" " + tok + b" " + data[s:]
-    elif case["kind"] == 2:
+    elif kind == 2:
         mutated = data[:s] + b" " + tok + b" " + data[e:]
-    else:
+    elif kind == 3:
         mutated = data[:e]
+    else:
+        cur = data[s:e].decode("utf-8", "replace")
+        alts = SIMILAR.get(cur)
+        if not alts:
+            return {}
+        mutated = data[:s] + b" " + alts[pos % len(alts)].encode() + b" " + data[e:]
     r = util.request({"op": "parse", "src": {"hex": mutated.hex()}}, what=f"parse {mutated[:300]!r}")
     if "ok" in r:
         return {"labels": ["still-parses"]}
@@ -322,8 +345,62 @@ def check_error(case):
     return {"nontrivial": True, "labels": ["parse-error"], "sample": mutated.decode("utf-8", "replace")[:200]}
 
 
+# every token of a small program replaced by each similar token (exhaustive per generated tree)
+@st.composite
+def sweep_case(draw):
+    sub = A.syntax_trees(max_leaves=3)
+    feature = draw(st.integers(0, 7))
+    if feature == 0:
+        tree = {"k": "object", "inside": draw(A.obj_inside(sub).filter(lambda i: i["k"] == "comp"))}
+    elif feature == 1:
+        tree = {"k": "object", "inside": draw(A.obj_inside(sub).filter(lambda i: i["k"] == "members" and len(i["members"]) >= 2))}
+    elif feature == 2:
+        tree = {"k": "arraycomp", "body": draw(sub), "spec": draw(A.comp_spec(sub))}
+    elif feature == 3:
+        tree = {"k": "slice", "e": draw(sub), "start": draw(st.one_of(st.none(), sub)), "end": draw(st.one_of(st.none(), sub)), "step": draw(st.one_of(st.none(), sub))}
+    elif feature == 4:
+        tree = {"k": "local", "binds": draw(st.lists(A.bind(sub), min_size=1, max_size=2)), "body": draw(sub)}
+    elif feature == 5:
+        tree = draw(A.call(sub))
+    elif feature == 6:
+        tree = {"k": "if", "cond": draw(sub), "then": draw(sub), "else": draw(st.one_of(st.none(), sub))}
+    else:
+        tree = {"k": "objext", "e": draw(sub), "inside": draw(A.obj_inside(sub))}
+    return {"tree": tree, "choices": draw(st.lists(st.integers(0, 1000), min_size=8, max_size=30))}
+
+
+def check_sweep(case):
+    text, _ = P.print_tree(case["tree"], chooser(case["choices"]), "minimal", "normal")
+    ref = RL.ref_lex(text.encode("utf-8"))
+    toks = [(k, s, e) for k, _, s, e in ref[1] if k not in ("ws", "comment", "eof")]
+    data = text.encode("utf-8")
+    n = 0
+    for i, (_, s, e) in enumerate(toks):
+        cur = data[s:e].decode("utf-8", "replace")
+        for j, alt in enumerate(SIMILAR.get(cur, [])):
+            mutated = data[:s] + b" " + alt.encode() + b" " + data[e:]
+            judge_mutated(mutated)
+            n += 1
+        judge_mutated(data[:s] + data[e:])
+        n += 1
+    return {"nontrivial": n >= 8, "labels": [case["tree"]["k"]], "sample": text[:200]}
+
+
+def judge_mutated(mutated):
+    r = util.request({"op": "parse", "src": {"hex": mutated.hex()}}, what=f"parse {mutated[:300]!r}")
+    if "ok" in r or r["err"]["phase"] != "parse":
+        return
+    err = r["err"]
+    lx = util.request({"op": "lex", "src": {"hex": mutated.hex()}, "ws": False})
+    spans = {tuple(t["span"]): t for t in lx["ok"]["tokens"]}
+    sp = tuple(err["spans"][0])
+    if sp not in spans:
+        raise Violation("parse-error-span", f"syntax error span {sp} is not the span of a token of {mutated[:300]!r}")
+
+
 CHECKS = [
+    Check("similar_token_sweep", check_sweep, sweep_case, quick=60, thorough=2500),
     Check("print_reparse", check_roundtrip, roundtrip_case, quick=400, thorough=12000),
     Check("precedence", check_precedence, precedence_case, quick=400, thorough=12000),
-    Check("error_points_at_token", check_error, error_case, quick=250, thorough=8000),
+    Check("error_points_at_token", check_error, error_case, quick=150, thorough=8000),
 ]
